@@ -193,7 +193,15 @@ func init() {
 		Assumptions: []string{"operands are well-formed (checked before each step); NodeDescendants depth >= 1", "nil results (documented for absent start nodes) are not judged"},
 		NCases: func(tier string) int { return len(c08Lists(tier)) + c08Random(tier) },
 		Case:   c08Case,
-		Exhaustive: func(tier string) bool { return tier == "thorough" },
+		ExhaustiveSubspaces: func(tier string) []string {
+			out := []string{"all 4301 well-formed lists on <=3 ids as receivers of every unary operation with every argument (removal subsets, start ids, depths 1..4)"}
+			if tier == "thorough" {
+				out = append(out, "all 4301^2 ordered pairs for Union, Intersect, Add, RelateNodeListAtID")
+			} else {
+				out = append(out, "all pairs (receiver on <=3 ids) x (argument on <=2 ids) for Union, Intersect, Add, RelateNodeListAtID")
+			}
+			return out
+		},
 	})
 }
 
